@@ -49,65 +49,10 @@ theorem allowedLoop_eq (acls : List Acl) (q : Req) (h : Bool)
       · simp [hm, hp, permAllow, permDeny]
     · simp [hm, ih _ wf']
 
-theorem anyAllowed_iff (acls : List Acl) (q : Req) :
-    anyAllowed acls q = true ↔
-      ∃ a ∈ acls, a.rtype = q.rtype ∧ Spec.principalMatches a q.principal = true ∧ Spec.hostMatches a q.host = true ∧
-        Spec.opMatches a q.op = true ∧ a.perm = permAllow := by
-  induction acls with
-  | nil => simp [anyAllowed]
-  | cons a rest ih =>
-    unfold anyAllowed
-    rw [matchesPrincipal_eq, matchesHost_eq, matchesOp_eq]
-    by_cases h1 : a.rtype = q.rtype <;> by_cases h2 : Spec.principalMatches a q.principal = true <;>
-      by_cases h3 : Spec.hostMatches a q.host = true <;> by_cases h4 : Spec.opMatches a q.op = true <;>
-      by_cases h5 : a.perm = permAllow <;> simp_all
-
 theorem mem_names (acls : List Acl) (q : Req) (perm pat : Nat) (n : Str) :
     n ∈ Spec.names acls q perm pat ↔
       ∃ a ∈ acls, Spec.byTypeRelevant a q = true ∧ a.perm = perm ∧ a.pattern = pat ∧ a.name = n := by
   simp [Spec.names, List.mem_map, List.mem_filter, and_assoc]
-
-theorem hasDom_nil (n : Str) : Spec.hasDominantPrefixedDeny n [] = false := by
-  simp [Spec.hasDominantPrefixedDeny]
-
-theorem byType_true_exists (acls : List Acl) (q : Req) (h : Spec.byTypeAcls acls q = true) :
-    ∃ a ∈ acls, Spec.byTypeRelevant a q = true ∧ a.perm = permAllow := by
-  unfold Spec.byTypeAcls at h
-  simp only [] at h
-  split at h
-  · simp at h
-  · simp only [Bool.or_eq_true, List.any_eq_true] at h
-    rcases h with ⟨l, hl, _⟩ | ⟨p, hp, _⟩
-    · obtain ⟨a, ha, hr, hperm, _, _⟩ := (mem_names _ _ _ _ _).1 hl
-      exact ⟨a, ha, hr, hperm⟩
-    · obtain ⟨a, ha, hr, hperm, _, _⟩ := (mem_names _ _ _ _ _).1 hp
-      exact ⟨a, ha, hr, hperm⟩
-
-theorem names_deny_nil (acls : List Acl) (q : Req) (pat : Nat)
-    (nd : ∀ a ∈ acls, Spec.byTypeRelevant a q = true → a.perm ≠ permDeny) :
-    Spec.names acls q permDeny pat = [] := by
-  rw [List.eq_nil_iff_forall_not_mem]
-  intro n hn
-  obtain ⟨a, ha, hr, hp, _⟩ := (mem_names _ _ _ _ _).1 hn
-  exact nd a ha hr hp
-
-theorem byType_noDeny (acls : List Acl) (q : Req)
-    (nd : ∀ a ∈ acls, Spec.byTypeRelevant a q = true → a.perm ≠ permDeny) :
-    Spec.byTypeAcls acls q = true ↔
-      ∃ a ∈ acls, Spec.byTypeRelevant a q = true ∧ a.perm = permAllow ∧ (a.pattern = patLiteral ∨ a.pattern = patPrefixed) := by
-  unfold Spec.byTypeAcls
-  simp only [names_deny_nil acls q _ nd, hasDom_nil]
-  simp only [List.contains_nil, Bool.false_eq_true, if_false, Bool.not_false, Bool.and_self, Bool.or_true,
-    Bool.or_eq_true, List.any_eq_true, and_true]
-  constructor
-  · rintro (⟨l, hl⟩ | ⟨p, hp⟩)
-    · obtain ⟨a, ha, hr, hperm, hpat, _⟩ := (mem_names _ _ _ _ _).1 hl
-      exact ⟨a, ha, hr, hperm, Or.inl hpat⟩
-    · obtain ⟨a, ha, hr, hperm, hpat, _⟩ := (mem_names _ _ _ _ _).1 hp
-      exact ⟨a, ha, hr, hperm, Or.inr hpat⟩
-  · rintro ⟨a, ha, hr, hperm, hpat | hpat⟩
-    · exact Or.inl ⟨a.name, (mem_names _ _ _ _ _).2 ⟨a, ha, hr, hperm, hpat, rfl⟩⟩
-    · exact Or.inr ⟨a.name, (mem_names _ _ _ _ _).2 ⟨a, ha, hr, hperm, hpat, rfl⟩⟩
 
 /-- an entry relevant to Kafka's by-resource-type filter passes kfake's four tests -/
 theorem relevant_matches (a : Acl) (q : Req) (h : Spec.byTypeRelevant a q = true) :
@@ -176,6 +121,20 @@ theorem hasDom_iff (name : Str) (L : List Str) :
     exact ⟨p, (mem_nonEmptyPrefixes p name).2 h, hL⟩
 
 
+/-- `anyAllowed` with its two loops written as filters (an intermediate form between the Go loops and Kafka's rule):
+relevant entries, DENYs and ALLOWs among them, an ALLOW counts if it is not dominated. -/
+def anyAllowedFilter (acls : List Acl) (q : Req) : Bool :=
+  let rel := acls.filter fun a =>
+    a.rtype == q.rtype && matchesPrincipal a q.principal && matchesHost a q.host && (a.op == q.op || a.op == opAll)
+  let denies := rel.filter (·.perm == permDeny)
+  let allows := rel.filter (·.perm == permAllow)
+  if denies.any (fun d => d.pattern == patLiteral && d.name == star) then false
+  else allows.any fun al =>
+    if al.pattern == patLiteral && al.name == star then true
+    else if al.pattern != patLiteral && al.pattern != patPrefixed then false
+    else if al.pattern == patLiteral && denies.any (fun d => d.pattern == patLiteral && d.name == al.name) then false
+    else !denies.any (fun d => d.pattern == patPrefixed && d.name != [] && d.name.isPrefixOf al.name)
+
 theorem rel_eq (a : Acl) (q : Req) :
     (a.rtype == q.rtype && matchesPrincipal a q.principal && matchesHost a q.host && (a.op == q.op || a.op == opAll))
       = Spec.byTypeRelevant a q := by
@@ -187,8 +146,8 @@ theorem rel_eq (a : Acl) (q : Req) :
   generalize (a.op == q.op || a.op == opAll) = b4
   cases b1 <;> cases b2 <;> cases b3 <;> cases b4 <;> rfl
 
-theorem anyAllowedRepaired_eq' (acls : List Acl) (q : Req) :
-    anyAllowedRepaired acls q = Spec.byTypeAcls acls q := by
+theorem anyAllowedFilter_eq (acls : List Acl) (q : Req) :
+    anyAllowedFilter acls q = Spec.byTypeAcls acls q := by
   have hD : ∀ (P : Acl → Bool),
       (((acls.filter fun a => Spec.byTypeRelevant a q).filter (·.perm == permDeny)).any P = true ↔
         ∃ d ∈ acls, d.perm = permDeny ∧ Spec.byTypeRelevant d q = true ∧ P d = true) := by
@@ -211,7 +170,7 @@ theorem anyAllowedRepaired_eq' (acls : List Acl) (q : Req) :
     · rintro ⟨d, hd, hr, hperm, hpat, h1, h2⟩
       exact ⟨d.name, (mem_names _ _ _ _ _).2 ⟨d, hd, hr, hperm, hpat, rfl⟩, h1, h2⟩
   rw [Bool.eq_iff_iff]
-  unfold anyAllowedRepaired Spec.byTypeAcls
+  unfold anyAllowedFilter Spec.byTypeAcls
   simp only [rel_eq]
   have hL : ∀ n : Str,
       (((acls.filter fun a => Spec.byTypeRelevant a q).filter (·.perm == permDeny)).any
@@ -288,6 +247,123 @@ theorem anyAllowedRepaired_eq' (acls : List Acl) (q : Req) :
         have h44 : (patPrefixed != patPrefixed) = false := by decide
         simpa [hpat, h34, h44] using hh
 
+
+
+/-- kfake's relevance test of the repaired `anyAllowed` (first loop) -/
+def relB (a : Acl) (q : Req) : Bool :=
+  a.rtype == q.rtype && matchesPrincipal a q.principal && matchesHost a q.host && (a.op == q.op || a.op == opAll)
+
+theorem skip2_eq (a : Acl) (q : Req) :
+    (a.rtype != q.rtype || !matchesPrincipal a q.principal || !matchesHost a q.host || (a.op != q.op && a.op != opAll))
+      = !relB a q := by
+  unfold relB
+  simp only [bne]
+  generalize (a.rtype == q.rtype) = b1
+  generalize matchesPrincipal a q.principal = b2
+  generalize matchesHost a q.host = b3
+  generalize (a.op == q.op) = b4
+  generalize (a.op == opAll) = b5
+  cases b1 <;> cases b2 <;> cases b3 <;> cases b4 <;> cases b5 <;> rfl
+
+theorem collect_eq (acls : List Acl) (q : Req) (al dn : List Acl) :
+    anyAllowedCollect acls q al dn =
+      if (((acls.filter (relB · q)).filter (·.perm == permDeny)).any fun d => d.pattern == patLiteral && d.name == star) = true then none
+      else some (al ++ (acls.filter (relB · q)).filter (·.perm == permAllow),
+                 dn ++ (acls.filter (relB · q)).filter (·.perm == permDeny)) := by
+  induction acls generalizing al dn with
+  | nil => simp [anyAllowedCollect]
+  | cons a rest ih =>
+    unfold anyAllowedCollect
+    rw [skip2_eq]
+    by_cases hr : relB a q = true
+    · by_cases hd : a.perm = permDeny
+      · by_cases hs : (a.pattern == patLiteral && a.name == star) = true
+        · simp [hr, hd, hs]
+        · have hda : (permDeny == permAllow) = false := by decide
+          simp [hr, hd, hs, hda, ih]
+      · have hd' : (a.perm == permDeny) = false := by simpa using hd
+        by_cases ha : a.perm = permAllow
+        · simp [hr, ha, ih, permAllow, permDeny]
+        · have ha' : (a.perm == permAllow) = false := by simpa using ha
+          simp [hr, hd', ha', ih]
+    · simp [hr, ih]
+
+def domF (al : Acl) (literal : Bool) (d : Acl) : Bool :=
+  (d.pattern == patLiteral && (literal && d.name == al.name)) ||
+  (d.pattern == patPrefixed && (d.name != [] && d.name.isPrefixOf al.name))
+
+theorem dominatedLoop_eq (al : Acl) (literal : Bool) (ds : List Acl) :
+    dominatedLoop al literal ds false = ds.any (domF al literal) := by
+  induction ds with
+  | nil => simp [dominatedLoop]
+  | cons d ds ih =>
+    unfold dominatedLoop
+    by_cases h3 : d.pattern = patLiteral
+    · have h34 : (patLiteral == patPrefixed) = false := by decide
+      by_cases hx : (literal && d.name == al.name) = true
+      · simp [h3, hx, domF]
+      · simp [h3, hx, domF, h34, ih]
+    · have h3' : (d.pattern == patLiteral) = false := by simpa using h3
+      by_cases h4 : d.pattern = patPrefixed
+      · by_cases hx : (d.name != [] && d.name.isPrefixOf al.name) = true
+        · simp [h4, hx, domF, patLiteral, patPrefixed]
+        · simp [h4, hx, domF, ih, patLiteral, patPrefixed]
+      · have h4' : (d.pattern == patPrefixed) = false := by simpa using h4
+        simp [h3', h4', domF, ih]
+
+def scanG (denies : List Acl) (al : Acl) : Bool :=
+  if (al.pattern == patLiteral && al.name == star) = true then true
+  else if (!(al.pattern == patLiteral) && al.pattern != patPrefixed) = true then false
+  else !dominatedLoop al (al.pattern == patLiteral) denies false
+
+theorem scan_eq (denies allows : List Acl) : anyAllowedScan denies allows = allows.any (scanG denies) := by
+  induction allows with
+  | nil => simp [anyAllowedScan]
+  | cons al rest ih =>
+    unfold anyAllowedScan
+    simp only [List.any_cons, scanG, ih]
+    split
+    · simp
+    · split
+      · simp
+      · split <;> simp_all
+
+theorem any_domF (al : Acl) (literal : Bool) (L : List Acl) :
+    L.any (domF al literal) =
+      ((literal && L.any (fun d => d.pattern == patLiteral && d.name == al.name)) ||
+        L.any (fun d => d.pattern == patPrefixed && d.name != [] && d.name.isPrefixOf al.name)) := by
+  induction L with
+  | nil => cases literal <;> simp
+  | cons d ds ih =>
+    simp only [List.any_cons, ih, domF]
+    generalize (d.pattern == patLiteral) = b1
+    generalize (d.name == al.name) = b2
+    generalize (d.pattern == patPrefixed) = b3
+    generalize (d.name != []) = b4
+    generalize (List.isPrefixOf d.name al.name) = b5
+    generalize (ds.any fun d => d.pattern == patLiteral && d.name == al.name) = x
+    generalize (ds.any fun d => d.pattern == patPrefixed && d.name != [] && List.isPrefixOf d.name al.name) = y
+    cases literal <;> cases b1 <;> cases b2 <;> cases b3 <;> cases b4 <;> cases b5 <;> cases x <;> cases y <;> rfl
+
+theorem anyAllowed_eq_filter (acls : List Acl) (q : Req) : anyAllowed acls q = anyAllowedFilter acls q := by
+  unfold anyAllowed anyAllowedFilter
+  rw [collect_eq]
+  simp only [relB]
+  by_cases hC : (((acls.filter fun a =>
+    a.rtype == q.rtype && matchesPrincipal a q.principal && matchesHost a q.host && (a.op == q.op || a.op == opAll)).filter
+      (·.perm == permDeny)).any fun d => d.pattern == patLiteral && d.name == star) = true
+  · simp only [hC, if_true]
+  · simp only [hC, Bool.false_eq_true, if_false, List.nil_append, scan_eq]
+    congr 1
+    funext al
+    simp only [scanG, dominatedLoop_eq, any_domF, bne]
+    generalize (al.pattern == patLiteral) = b
+    generalize (al.name == star) = s
+    generalize (al.pattern == patPrefixed) = p4
+    generalize (List.filter (fun x : Acl => x.perm == permDeny) _) = dn
+    generalize (dn.any fun d : Acl => d.pattern == patLiteral && d.name == al.name) = x
+    generalize (dn.any fun d : Acl => d.pattern == patPrefixed && !(d.name == []) && List.isPrefixOf d.name al.name) = y
+    cases b <;> cases s <;> cases p4 <;> cases x <;> cases y <;> rfl
 
 theorem authorize_true_iff (acls : List Acl) (q : Req) :
     Spec.authorizeAcls acls q = true ↔
